@@ -508,8 +508,10 @@ def render_input(g, tokens, rng=None, seps=None, foreign_at=None, kinds=None,
 # Layout, the helper names X1/X0/XOpt of the regex-like operators), Rust keywords and
 # names that are not Rust identifiers (Name allows dots).
 DOC_RULE_NAMES = ["S", "A", "B", "C", "A1", "A0", "AOpt", "B1", "Ta1", "Layout", "STOP", "EMPTY", "AUG", "AUGL",
-                  "fn", "Self", "a.b", "A_b", "_x"]
-DOC_TERM_NAMES = ["Ta", "Tb", "Tc", "Td", "Ta1", "STOP", "Num", "type", "t.x", "Ta0"]
+                  "fn", "Self", "a.b", "A_b", "_x", "If", "Type", "Box", "Token", "Input", "Ctx", "Context",
+                  "TokenKind", "State", "Vec", "Option", "String", "ANoO", "SBase", "Empty", "C1"]
+DOC_TERM_NAMES = ["Ta", "Tb", "Tc", "Td", "Ta1", "STOP", "Num", "type", "t.x", "Ta0", "If", "Loop", "Token", "S",
+                  "Match", "TaOpt"]
 DOC_STRS = ["'a'", "'b'", "'c'", "'+'", "','", "\"x y\"", "''", "'\\''", "'é'", "'ab'", "'terminals'"]
 DOC_REGEXES = ["/a+/", "/\\d+/", "/[a-c]+/", "/a*/", "/(/", "/b|bb/", "/\\//", "/./", "/[^a]/"]
 DOC_KINDS = ["Add", "Mul", "A", "S", "a.b", "fn", "T1", "x_y", "Ta"]
@@ -625,3 +627,101 @@ def docgen(rng):
         lines += tl
     sep = rng.choice(["\n", "\n", "\n", " ", "\r\n", "\n// c\n", " /* c */ "])
     return sep.join(lines) + "\n"
+
+
+# ---------------------------------------------------------------------------
+# A small reader of grammar TEXT for the signatures of recorded findings (what the
+# compiler makes of a text is judged by Builder.tla on the compiler's own dump; this
+# reader only has to recognise rule shapes).
+def read_rules(text):
+    """{rule name: [alternatives]}; an alternative is a list of symbols, a symbol is
+    (name-or-string, operator or "", has separator).  EMPTY contributes nothing.  The
+    helper rules of the repetition operators are added under the compiler's names."""
+    import re
+    text = re.sub(r"/\*.*?\*/", " ", text, flags=re.S)
+    text = re.sub(r"//[^\n]*", " ", text)
+    body = re.split(r"\bterminals\b", text)[0]
+    toks = re.findall(r"'(?:[^'\\]|\\.)*'|\"(?:[^\"\\]|\\.)*\"|@\w+|[A-Za-z_][\w.]*|\?=|[*+?]!?|[:;|{}\[\](),=]", body)
+    rules = {}
+    i = 0
+    n = len(toks)
+    while i < n:
+        if toks[i].startswith("@"):
+            i += 1
+            continue
+        name = toks[i]
+        i += 1
+        if i < n and toks[i] == "{":
+            while i < n and toks[i] != "}":
+                i += 1
+            i += 1
+        if i >= n or toks[i] != ":":
+            # not a rule head: resynchronise at the next ';'
+            while i < n and toks[i] != ";":
+                i += 1
+            i += 1
+            continue
+        i += 1
+        alts = [[]]
+        while i < n and toks[i] != ";":
+            t = toks[i]
+            if t == "|":
+                alts.append([])
+            elif t == "{":
+                while i < n and toks[i] != "}":
+                    i += 1
+            elif t in ("=", "?="):
+                if alts[-1]:
+                    alts[-1].pop()       # the token before was the assignment name
+            elif t in ("*", "+", "?", "*!", "+!", "?!"):
+                if alts[-1]:
+                    s0 = alts[-1][-1]
+                    alts[-1][-1] = (s0[0], t[0], s0[2])
+            elif t == "[":
+                while i < n and toks[i] != "]":
+                    i += 1
+                if alts[-1]:
+                    s0 = alts[-1][-1]
+                    alts[-1][-1] = (s0[0], s0[1], True)
+            elif t in ("(", ")", ",", ":"):
+                pass
+            elif t != "EMPTY":
+                alts[-1].append((t, "", False))
+            i += 1
+        i += 1
+        rules.setdefault(name, []).extend(alts)
+    # helper rules
+    out = {}
+    for name, alts in rules.items():
+        na = []
+        for a in alts:
+            syms = []
+            for (sname, op, sep) in a:
+                if not op:
+                    syms.append(sname)
+                    continue
+                base = sname
+                one, zero, opt = base + "1", base + "0", base + "Opt"
+                if op in ("+", "*"):
+                    out.setdefault(one, [[one, base], [base]])
+                if op == "*":
+                    out.setdefault(zero, [[one], []])
+                if op == "?":
+                    out.setdefault(opt, [[base], []])
+                syms.append({"+": one, "*": zero, "?": opt}[op])
+            na.append(syms)
+        out.setdefault(name, [])
+        out[name] = out[name] + na if name in rules else na
+    return out
+
+
+def nullable_of(rules):
+    nullable = set()
+    changed = True
+    while changed:
+        changed = False
+        for n, alts in rules.items():
+            if n not in nullable and any(all(x in nullable for x in a) for a in alts):
+                nullable.add(n)
+                changed = True
+    return nullable
